@@ -26,6 +26,13 @@ CLAIMED = {
         design_ref="DESIGN.md §3.3",
         note="Operations are called inside their documented domains (arguments drawn from state; size-compatible adds); three genuine defects are listed in known_findings.json (F6, F8b, F13) and the default generator keeps their triggers rare.",
     ),
+    "C11": dict(
+        category="exploration",
+        technique="deterministic simulation: seeded history search (target times, steps, orders, generator abandonment, shared Hamiltonian, apply_to_arrays) against an independent dense product-formula model, with the id()-keyed operator caches of LocalHamGen running on a simulated allocator whose address re-use is a recorded decision",
+        text="Random site-dependent non-exchange-symmetric Hamiltonians (L 2-6, open/periodic, H1 forms) and up to two TEBD objects sharing one; after every update_to / step / at_times yield the time, the dense state (vs my own statement of the order-1/2/4 formulas incl. the final partial step), the norm and the error estimate are checked; get_gate / get_gate_expm / get_trotter_gates against expm of the current stored terms; sum of terms against the supplied H2+H1; convergence order on fresh evolutions. Address re-use after apply_to_arrays is injected through the allocator seam. Sampling: evidence, not proof.",
+        design_ref="DESIGN.md §3.6",
+        note="scipy.linalg.expm and dense tensordot are the reference; periodic chains run with cutoff 1e-13 under a sweep budget (bond doubling); on odd periodic chains only a decrease of the error is demanded, as the property states.",
+    ),
 }
 
 NOT_APPLICABLE = {
